@@ -153,7 +153,21 @@ _OPFUNC = {"add": ast.Add, "sub": ast.Sub, "mul": ast.Mult,
            "is_not": ast.IsNot}
 
 import itertools as _it
+import operator as _op
 _MATH["itertools.chain"] = lambda *a: list(_it.chain(*a))
+_MATH["itertools.chain.from_iterable"] = lambda a: list(
+    _it.chain.from_iterable(a))
+_MATH["itertools.accumulate"] = lambda *a, **k: list(_it.accumulate(*a, **k))
+_MATH["itertools.repeat"] = lambda x, n: [x] * n
+_MATH["itertools.product"] = lambda *a, **k: list(_it.product(*a, **k))
+_MATH["itertools.islice"] = lambda *a: list(_it.islice(*a))
+_MATH["itertools.zip_longest"] = lambda *a, **k: list(
+    _it.zip_longest(*a, **k))
+_MATH["operator.itemgetter"] = _op.itemgetter
+# pure functions that only store or pass on their arguments: abstract
+# values may go through them
+_TRANSPARENT = {"enumerate", "zip", "reversed", "list", "tuple", "sorted",
+                "min", "max"}
 
 OPCODE_CLASS = "ebpfcat.ebpf.Opcode"
 
@@ -260,6 +274,9 @@ class Evaluator:
                     return ("pyfunc", operator.index)
                 if what in _MATH:
                     return ("pyfunc", _MATH[what])
+                if what == "operator.attrgetter":
+                    return ("pyfunc", lambda name: ("hook", lambda o, _n=name,
+                            _s=self: _s.getattr(o, _n)))
                 if what.startswith("operator.") and what[9:] in _OPFUNC:
                     return ("opfunc", _OPFUNC[what[9:]])
                 return ("ext", what)
@@ -495,7 +512,14 @@ class Evaluator:
     def truth(self, v):
         if isinstance(v, (Opaque,)):
             raise Unknown("truth of opaque")
-        if isinstance(v, (Obj, EnumVal, ClassRef)):
+        if isinstance(v, EnumVal):
+            # a plain Enum member is always true; IntEnum / IntFlag members
+            # are their integer value
+            if any(isinstance(c, str) and c.split(".")[-1] in (
+                    "IntEnum", "IntFlag") for c in self.repo.mro(v.cls)):
+                return bool(v.value)
+            return True
+        if isinstance(v, (Obj, ClassRef)):
             return True
         if isinstance(v, Flags):
             return True
@@ -1000,7 +1024,67 @@ class Evaluator:
             if r is not None:
                 return r
             return self.run_block(s.orelse, env)
+        if isinstance(s, ast.Match):
+            subj = self.eval(s.subject, env)
+            for c in s.cases:
+                e2 = dict(env)
+                if self._match(c.pattern, subj, e2) and (
+                        c.guard is None
+                        or self.truth(self.eval(c.guard, e2))):
+                    env.update(e2)
+                    return self.run_block(c.body, env)
+            return None
         raise Unknown(f"statement {type(s).__name__}")
+
+    def _match(self, pat, v, env):
+        if isinstance(pat, ast.MatchValue):
+            return self.truth(self.compare(ast.Eq, v,
+                                           self.eval(pat.value, env)))
+        if isinstance(pat, ast.MatchSingleton):
+            return v is pat.value
+        if isinstance(pat, ast.MatchAs):
+            if pat.pattern is not None and not self._match(pat.pattern, v,
+                                                           env):
+                return False
+            if pat.name is not None:
+                env[pat.name] = v
+            return True
+        if isinstance(pat, ast.MatchOr):
+            return any(self._match(p_, v, env) for p_ in pat.patterns)
+        if isinstance(pat, ast.MatchClass) and not pat.patterns:
+            if not self._isinstance(v, self.eval(pat.cls, env)):
+                return False
+            for attr, sub in zip(pat.kwd_attrs, pat.kwd_patterns):
+                try:
+                    fv = self.getattr(v, attr)
+                except Raised:
+                    return False
+                if not self._match(sub, fv, env):
+                    return False
+            return True
+        if isinstance(pat, ast.MatchSequence):
+            if isinstance(v, (Obj, Opaque, ClassRef, EnumVal)):
+                raise Unknown("sequence pattern on an abstract value")
+            if not isinstance(v, (tuple, list)) :
+                return False
+            stars = [i for i, p_ in enumerate(pat.patterns)
+                     if isinstance(p_, ast.MatchStar)]
+            if not stars:
+                return len(v) == len(pat.patterns) and all(
+                    self._match(p_, x, env)
+                    for p_, x in zip(pat.patterns, v))
+            i = stars[0]
+            after = len(pat.patterns) - i - 1
+            if len(v) < len(pat.patterns) - 1:
+                return False
+            ok = all(self._match(p_, x, env)
+                     for p_, x in zip(pat.patterns[:i], v[:i])) and all(
+                self._match(p_, x, env) for p_, x in zip(
+                    pat.patterns[i + 1:], v[len(v) - after:]))
+            if ok and pat.patterns[i].name:
+                env[pat.patterns[i].name] = list(v[i:len(v) - after])
+            return ok
+        raise Unknown(f"pattern {type(pat).__name__}")
 
     def assign(self, t, v, env):
         if isinstance(t, ast.Name):
@@ -1024,6 +1108,8 @@ class Evaluator:
                 self.call(m, [idx, v])
             elif isinstance(base, (list, dict, bytearray)):
                 base[idx] = v
+            elif getattr(base, "_sa_recorder", False):
+                base[idx] = v       # a rule's recording stand-in
             else:
                 raise Unknown("item store")
         else:
